@@ -49,7 +49,8 @@ def cases(draw, allow_rm=True):
         r = draw(st.integers(0, 15))
         if r <= 5:
             nleaf = draw(st.sampled_from([1, 1, 1, 2, 2, 3]))
-            ops.append(["do", [list(draw(leafdesc)) for _ in range(nleaf)], draw(st.booleans())])
+            # 4th element: the change set ALSO rewrites the ignored file (a mixed change is still recorded and undoable)
+            ops.append(["do", [list(draw(leafdesc)) for _ in range(nleaf)], draw(st.booleans()), draw(st.integers(0, 5)) == 0])
         elif r == 6:
             ops.append(["rename", draw(st.integers(0, 3))])
         elif r <= 8:
@@ -61,10 +62,10 @@ def cases(draw, allow_rm=True):
         elif r <= 14:
             ops.append(["sredo", draw(st.integers(0, 3))])
         else:
-            ops.append(["limit", draw(st.sampled_from([1, 2, 3, 5]))])
+            ops.append(["limit", draw(st.sampled_from([0, 1, 2, 3, 5]))])
         if draw(st.integers(0, 11)) == 0:
             # a change that touches only an IGNORED resource: performed, not recorded for undo, but still "a new change"
-            ops.append(["do_ignored", draw(st.integers(0, 99))])
+            ops.append(["do_ignored", draw(st.integers(0, 99)), draw(st.booleans())])
     return {"tree": tree, "ops": ops}
 
 
@@ -93,13 +94,18 @@ def _related(p, q):
     return p == q or p.startswith(q + "/") or q.startswith(p + "/")
 
 
+def _touched(entry):
+    """paths an entry touches: those of its spec plus, for a mixed change, the ignored file"""
+    return set(fsmodel.touched_paths(entry["spec"])) | set(entry.get("extra_paths", ()))
+
+
 def ref_closure(entries, idx):
     """entries[idx] plus, transitively, every later entry that shares a resource with, or lies
     inside / contains a folder of, something already collected"""
     chosen = [idx]
-    paths = set(fsmodel.touched_paths(entries[idx]["spec"]))
+    paths = set(_touched(entries[idx]))
     for j in range(idx + 1, len(entries)):
-        pj = fsmodel.touched_paths(entries[j]["spec"])
+        pj = _touched(entries[j])
         if any(_related(p, q) for p in pj for q in paths):
             chosen.append(j)
             paths |= pj
@@ -235,6 +241,11 @@ def evaluate(case, env):
             elif kind in ("do", "letter") and (kind == "do" or op[1] in ("A", "B", "AB", "MV")):
                 spec = _resolve_do(tree_now, op, step) if kind == "do" else _resolve_letter(tree_now, op[1], step)
                 ch = fsmodel.build_change(project, spec, tree_now)
+                if kind == "do" and len(op) > 3 and op[3]:
+                    from rope.base.change import ChangeContents
+
+                    ch.add_change(ChangeContents(project.get_file(IGNORED), "i = 'mixed %d'\n" % step))
+                    feats.add("mixed_ignored_and_ordinary_change")
                 kind = "do"
             if kind == "do":
                 had_redo = bool(m_redo)
@@ -244,6 +255,8 @@ def evaluate(case, env):
                     out.violation("C11:do:raised:" + type(e).__name__, "valid change %r raised %r" % (spec, e), sub)
                     break
                 e = {"spec": spec, "obj": ch, "n": step}
+                if len(op) > 3 and op[0] == "do" and op[3]:
+                    e["extra_paths"] = [IGNORED]
                 entries[id(ch)] = e
                 m_undo.append(e)
                 m_redo = []
@@ -423,8 +436,8 @@ def _fold(base, lst):
 def _stale_redo(dropped, m_redo):
     paths = set()
     for e in dropped:
-        paths |= fsmodel.touched_paths(e["spec"])
+        paths |= _touched(e)
     for r in m_redo:
-        if any(_related(p, q) for p in fsmodel.touched_paths(r["spec"]) for q in paths):
+        if any(_related(p, q) for p in _touched(r) for q in paths):
             return True
     return False
